@@ -72,6 +72,56 @@ def file_name(k):
     return "src/lib.rs" if k == 0 else ("src/m%d.rs" % k if k % 2 else "src/sub/deep/m%d.rs" % k)
 
 
+NOISE_ATTRS = ["/// documentation comment of the item", "#[allow(dead_code)]", "#[cfg_attr(test, allow(unused))]",
+               "#[serde(deny_unknown_fields)]", "#[doc = \"attribute form\"]", "#[non_exhaustive]"]
+
+
+def attr_lines(derives, shape):
+    """Attribute lines of a type item: the derive idents split over several #[derive] attributes in an order and
+    grouping chosen by `shape` (an int), other attributes before / between / after, serde:: path spelling."""
+    ds = list(derives)
+    if not ds:
+        return [NOISE_ATTRS[shape % len(NOISE_ATTRS)]] if shape % 2 else []
+    if shape % 7 == 3:
+        ds = [("serde::" + d) if d in ("Serialize", "Deserialize") else d for d in ds]
+    k = shape % 5
+    if k == 0:
+        groups = [ds]
+    elif k == 1:
+        groups = [[d] for d in ds]                                   # one attribute per trait
+    elif k == 2:
+        groups = [ds[:1], ds[1:]] if len(ds) > 1 else [ds]
+    elif k == 3:
+        groups = [ds[:-1], ds[-1:]] if len(ds) > 1 else [ds]
+    else:                                                             # serde traits last, in an attribute of their own
+        a = [d for d in ds if "erialize" not in d]
+        b = [d for d in ds if "erialize" in d]
+        groups = [g for g in (a, b) if g]
+    if (shape // 5) % 3 == 1:
+        groups = groups[::-1]
+    if (shape // 15) % 2 == 1 and all("erialize" in d for d in ds):   # a non-serde derive first
+        groups = [["Debug", "Clone"]] + groups
+    lines = []
+    noise = [NOISE_ATTRS[(shape + i) % len(NOISE_ATTRS)] for i in range(3)]
+    if shape % 3 != 0:
+        lines.append(noise[0])
+    for i, g in enumerate(groups):
+        lines.append("#[derive(%s)]" % ", ".join(g))
+        if i + 1 < len(groups) and shape % 4 >= 2:
+            lines.append(noise[1])
+    if shape % 3 == 2:
+        lines.append(noise[2])
+    return lines, [d for g in groups for d in g]
+
+
+def shaped(it, shape):
+    """a struct / enum item printed with the attribute shape; the model sees the flattened derive idents"""
+    lines, flat = attr_lines(it["derives"], shape)
+    body = projgen.render_item(dict(it, derives=[]))
+    it2 = dict(it, derives=flat)
+    return {"kind": "raw", "text": "\n".join(lines + [body]), "c07": sx_item(it2)}
+
+
 def build(spec):
     """graph spec -> projgen case"""
     nfiles = spec.get("nfiles", 1)
@@ -101,12 +151,16 @@ def build(spec):
         if kind == "enum":
             items[f].append({"kind": "enum", "name": name, "derives": t["derives"], "serde": [],
                              "variants": [{"name": v, "serde": []} for v in ("Active", "Inactive", "InProgress")[:1 + i % 3]]})
+            if t.get("attr_shape") is not None:
+                items[f][-1] = shaped(items[f][-1], t["attr_shape"])
         elif kind == "tuple":
             items[f].append({"kind": "raw", "text": "%spub struct %s(pub u32);" % (
                 "#[derive(%s)]\n" % ", ".join(t["derives"]) if t["derives"] else "", name),
                 "c07": ["def", name, list(t["derives"]), ["tuple"]]})
         elif kind == "unit":
             items[f].append({"kind": "struct", "name": name, "derives": t["derives"], "serde": [], "unit": True, "fields": []})
+            if t.get("attr_shape") is not None:
+                items[f][-1] = shaped(items[f][-1], t["attr_shape"])
         else:
             fields = []
             k = 0
@@ -120,6 +174,10 @@ def build(spec):
             for sk in t.get("skipped", []):      # #[serde(skip)] field mentioning type sk
                 fields.append({"name": "sk_%d" % sk, "ty": P(types[sk]["name"]), "serde": [{"skip": True}], "validate": []})
             items[f].append({"kind": "struct", "name": name, "derives": t["derives"], "serde": [], "fields": fields})
+            if t.get("attr_shape") is not None:
+                items[f][-1] = shaped(items[f][-1], t["attr_shape"])
+    for raw in spec.get("raw_items", []):            # decoy mentions in non-root positions: aliases, impl blocks, consts
+        items[file_name(raw[0])].append({"kind": "raw", "text": raw[1]})
     for f, defs_ in inline.items():
         body = "\n".join("    " + ln for text, _ in defs_ for ln in text.split("\n"))
         items[f].append({"kind": "raw",
@@ -142,17 +200,23 @@ def build(spec):
                                                                     segs=[[], ["tauri", "ipc"], ["ipc"]][(n + len(c["name"])) % 3])})
                 elif how == "event":
                     need_app = True
-                    if ctx == "literal":
+                    if ctx == "untyped":           # let v = call(..); emit(.., v): no type can be read off the syntax
+                        v = c.get("var", "payload")
+                        body.append("let %s = compute_value(%d);" % (v, n))
+                        body.append({"emit": "evt-%s-%d" % (c["name"], n), "recv": "app", "payload": v if n % 2 else "&" + v,
+                                     "c07": ["var", v]})
+                    elif ctx == "literal":
                         body.append({"emit": "evt-%s-%d" % (c["name"], n), "recv": "app",
                                      "payload": "%s { ..Default::default() }" % types[j]["name"], "c07": ["lit", types[j]["name"]]})
                     else:
-                        v = "payload%d" % n
+                        v = c.get("var") or "payload%d" % n
                         params.append({"name": v, "ty": CONTEXTS[ctx](tj)})
                         expr = {0: v, 1: "&" + v, 2: v + ".clone()"}[n % 3]
                         body.append({"emit": "evt-%s-%d" % (c["name"], n), "recv": "app", "payload": expr, "c07": ["var", v]})
             if need_app or c.get("app"):
                 params.insert(0, {"name": "app", "ty": P("AppHandle", segs=["tauri"])})
-            items[file_name(c.get("file", 0))].append({
+            fitems = items[file_name(c.get("file", 0))]
+            (fitems.insert if c.get("first") else (lambda _i, x: fitems.append(x)))(0, {
                 "kind": "fn", "name": c["name"], "attrs": [["tauri", "command"] if len(c["name"]) % 2 else ["command"]] if is_cmd else [],
                 "async": bool(len(c["name"]) % 3 == 0), "vis": "pub", "params": params, "ret": ret, "body": body})
     return {"files": items, "config": {}}
